@@ -62,7 +62,7 @@ Named == <<
   Ct("rbi", "R", "K0", "I", "K1", TRUE,  -1),      \* (R,K0) certified by I (cycle R -> I -> R)
   Ct("rd",  "R", "K0", "Z", "K8", TRUE,  -1),      \* (R,K0) certified by an absent issuer
   Ct("jbr", "J", "K7", "R", "K0", TRUE,  -1),      \* second way to J, directly from R
-  \* 31-39 validity windows and a DNS name (C12): two/three certificates for node (I,K1) with
+  \* 31-40 validity windows and a DNS name (C12): two/three certificates for node (I,K1) with
   \* different windows, leaves inside / across them, a cross-certificate for R that expires early
   Win(Ct("tr",  "R", "K0", "R", "K0", TRUE,  -1), 0, 1000),
   Win(Ct("ti",  "I", "K1", "R", "K0", TRUE,  -1), 100, 500),
@@ -72,7 +72,8 @@ Named == <<
   Win(Ct("tl2", "M", "K4", "I", "K1", FALSE, -1), 450, 950),
   Win(Ct("ts",  "S", "K3", "S", "K3", TRUE,  -1), 0, 1000),
   Win(Ct("trs", "R", "K0", "S", "K3", TRUE,  -1), 0, 300),
-  Win(Ct("ti4", "I", "K1", "R", "K0", TRUE,  -1), 400, 800)     \* starts exactly when tl ends
+  Win(Ct("ti4", "I", "K1", "R", "K0", TRUE,  -1), 400, 800),    \* starts exactly when tl ends
+  Win(Ct("tre", "R", "K0", "R", "K0", TRUE,  -1), 0, 350)       \* a root that expires before the leaves
 >>
 
 (* ---- a line of 11 CA certificates for the depth-limit boundary ------------------------ *)
@@ -126,6 +127,7 @@ Universe(u) ==
     [] u = "pathlen"  -> Ids({"r", "i0", "i", "j", "lj"})
     [] u = "pathlen6" -> Ids({"r", "r0", "i0", "i", "j", "lj"})
     [] u = "nonca"    -> Ids({"r", "inc", "i", "j", "lj"})
+    [] u = "nonca4"   -> Ids({"r", "inc", "j", "lj"})
     [] u = "cycle"    -> Ids({"r", "i", "rbi", "l", "j"})
     [] u = "rootdang" -> Ids({"rd", "i", "l", "r"})
     [] u = "diamond"  -> Ids({"r", "i", "j", "jbr", "lj"})
@@ -135,7 +137,7 @@ Universe(u) ==
     [] OTHER          -> {}
 
 UniverseNames == {"chain3", "dangling", "twin", "cross", "cross6", "rollover", "selfx", "selfx5",
-                  "badsig", "samesubj", "samesubj5", "pathlen", "pathlen6", "nonca", "cycle",
+                  "badsig", "samesubj", "samesubj5", "pathlen", "pathlen6", "nonca", "nonca4", "cycle",
                   "rootdang", "diamond", "line10", "line11", "line12"}
 
 ProductIdx == {ProdOff + n : n \in 1..16}
